@@ -437,6 +437,7 @@ class Info:
   root_extent: bool = False
   time_forms: set = dataclasses.field(default_factory=set)
   elements: int = 0
+  blocked: set = dataclasses.field(default_factory=set)   # document-order indexes of elements that can never begin (after a seq sibling that never ends)
 
 
 class _Reader:
@@ -450,6 +451,7 @@ class _Reader:
     self.styles: typing.Dict[str, tuple] = {}   # id -> (own props dict, refs list)
     self.region_ids: typing.Set[str] = set()
     self.uid = 0
+    self._index = None
 
   # -- small helpers ----------------------------------------------------------------------------------------------
   def next_uid(self):
@@ -853,6 +855,10 @@ class _Reader:
 
   def skip_count(self, c):
     self.info.elements += sum(1 for _ in c.iter())
+    if self._index is None:
+      self._index = {id(e): i for i, e in enumerate(self.root.iter())}
+    for e in c.iter():
+      self.info.blocked.add(self._index[id(e)])
 
 
 def interpret(root, ws_counts=True, set_counts=True):
